@@ -2,27 +2,48 @@
 
 Leg A tie: the per-rotation loop bodies of corr/flc/mcc_scoring are *translated from /repo's source on every run*
 (pv/c02_extract.py -> lean/PytmeModel/Extracted/C02.lean) and `scoring_loops_history_free` is re-proved about them.
-Leg B: real scan / scan_subsets under split dictionaries, job schedules, rotation orders and histories."""
-import itertools
+Leg B: real scan / scan_subsets under split dictionaries, job schedules, rotation orders and histories, for targets
+handed over in every representation the library accepts (C / Fortran / strided / read-only arrays, float32, integers,
+numpy.memmap, Density in memory and memory-mapped from an MRC file), analyzer options (thresholds incl. ties, memory-
+mapped result arrays), contrast inversion, spline orders, intensity scales and offsets."""
+import contextlib
+import io
+import os
+import warnings
 
 import numpy as np
 
 from .. import scoring as S
 from .. import c02_extract as X
+from .. import env as E
 
 ID = "C02"
-RULE = ("split dictionaries with 1..4 parts on any subset of axes, job schedules (outer, inner) incl. more jobs than "
-        "rotations and real worker processes, permuted / chunked rotation lists (grid rotations plus a generic one), "
-        "pad_fourier on/off, edge padding on/off, all 7 scores; histories [r], [r', r], [r, r', r] with a recording "
-        "callback. distinct = distinct (score, shapes, splits, schedule, order permutation, pad flags) tuples; the "
+RULE = ("split dictionaries with 1..5 parts on any subset of axes (tiles down to 2 voxels with edge padding), job schedules "
+        "(outer, inner) incl. more jobs than rotations / tiles and real worker processes (pairs of same-shaped searches on "
+        "reused workers), direct scan(n_jobs) against scan_subsets, permuted / chunked rotation lists of 1..6 rotations (grid "
+        "rotations plus a generic one, spline order 1 or 3, point-symmetric templates = tied rotations), pad_fourier on/off, "
+        "edge padding on/off, all 7 scores; template extents 2..6, target intensity scales 1e-3..1e3 with offsets of 20 "
+        "deviations, template scales 1e-2..1e2; target given as C/Fortran/strided/reversed/read-only/float32/int16 array, "
+        "numpy.memmap (float32/float64, with a file offset, Fortran-ordered, a slice of a mapping), Density (in memory, memory-mapped "
+        "MRC); templates / masks as Fortran / strided / reversed / read-only arrays; masks and rotations given to the constructor or "
+        "assigned afterwards; invert_target; score thresholds -1e30 / default / inside the "
+        "score range / equal to a score; use_memmap results; histories [r], [r', r], [r, r', r] with a recording callback. "
+        "distinct = distinct (score, shapes, splits, schedule, order permutation, flags, representation) tuples; the "
         "unsplit (1,1) identity-order reference itself is not counted")
-ASSUMPTIONS = ["float noise between differently tiled FFTs is below 2e-4 on normalised scores / 1e-5 relative on CC, LCC",
+ASSUMPTIONS = ["float64 noise between differently tiled FFTs is below 1e-7 on normalised scores; on CC / LCC below "
+               "1e-9 max|score| + 1e-13 |target|_2 |template|_2 (x 16 d^2 for the Laplacian)",
+               "where a normalised score differs by more than that, the amplification of rounding noise is measured on the reference "
+               "(same run on the target scaled by 1 + 2^-21 and by 1 - 3*2^-22: the exact score is unchanged) and 1000 x the measured "
+               "change is allowed at that voxel (windows whose variance under the rotated mask nearly vanishes)",
+               "MCC problems use templates with pairwise distinct values (a template that is constant on the overlap of the two masks "
+               "makes the score 0/0)",
                "loky scheduling beyond the schedules actually run is not explored",
                "the buffer-language translation treats a ufunc with out=<buffer> as a full overwrite and "
                "rigid_transform(out=...) as a partial write (it writes out[:template.shape] only)"]
 TRUSTED = ["C02: pv/c02_extract.py (AST translator of the three scoring loops into Pm.C02.Prog); joblib/loky process pool"]
 
-TOLN = 2e-4
+KINDS = ["c", "fortran", "strided-view", "reversed-view", "readonly", "float32", "memmap", "memmap64", "memmap-offset", "memmap-fortran",
+         "memmap-view", "density", "density-memmap", "int16"]
 
 
 def extract(ctx):
@@ -33,37 +54,119 @@ def extract(ctx):
         ctx.obligation("translate scoring loops (c02_extract)", False, str(e))
 
 
-def _close(a, b, score):
-    a, b = np.asarray(a, np.float64), np.asarray(b, np.float64)
-    if a.shape != b.shape:
-        return False, float("inf")
+@contextlib.contextmanager
+def _quiet():
+    with contextlib.redirect_stdout(io.StringIO()), warnings.catch_warnings():
+        warnings.simplefilter("ignore")
+        yield
+
+
+def _tick(ctx, name):
+    """wall time per section -> evidence (coverage.section_seconds)"""
+    import time
+    now = time.time()
+    sec = ctx.extra.setdefault("section_seconds", {})
+    sec[name] = round(now - ctx.extra.get("_c02_t", ctx.t0), 1)
+    ctx.extra["_c02_t"] = now
+
+
+def _tol(score, ref, target=None, template=None):
+    """float64 error model.  Normalised scores live in [-1, 1]: 1e-7.  CC / LCC are sums over an N-point FFT: the error
+    is bounded by c*eps*log2(N)*|f|_2*|g|_2 (c a small constant, log2 N <= 14 here, so < 100 eps): allow 450 eps; the
+    Laplacian (LCC) multiplies each norm by at most 4d."""
+    if score not in ("CC", "LCC"):
+        return 1e-7
+    t = 1e-9 * float(np.max(np.abs(ref))) if np.size(ref) else 0.0
+    if target is not None and template is not None:
+        f = float(np.sqrt(np.sum(np.square(np.asarray(target, np.float64)))))
+        g = float(np.sqrt(np.sum(np.square(np.asarray(template, np.float64)))))
+        t += 1e-13 * f * g * ((4 * np.ndim(template)) ** 2 if score == "LCC" else 1.0)
+    return max(t, 1e-300)
+
+
+PROBES = (1.0 + 2.0 ** -21, 1.0 - 3 * 2.0 ** -22)
+
+
+def _measured_noise(score, run_scaled, ref_map):
+    """Conditioning, measured.  A normalised score does not change when the target is multiplied by a constant; what a
+    factor that is not a power of two changes is every rounding.  The difference between the reference and the same run on
+    target * (1 + 2^-21) and target * (1 - 3 * 2^-22) therefore shows, voxel by voxel, how far rounding noise is amplified
+    (1e-16 where the window statistics are well conditioned; up to O(1) where a window's variance under the rotated mask
+    nearly vanishes and the score is a quotient of two numbers at noise level).  None for the unnormalised scores (their
+    tolerance already is a norm bound)."""
     if score in ("CC", "LCC"):
-        tol = 1e-4 * max(1.0, float(np.max(np.abs(b))))
+        return None
+    out = None
+    for s_ in PROBES:
+        m = run_scaled(s_)
+        if m is None or np.shape(m) != np.shape(ref_map):
+            return None
+        m = np.abs(np.asarray(m, np.float64) - ref_map)
+        out = m if out is None else np.maximum(out, m)
+    return out
+
+
+def _agrees(diff, sel, tol, noise_fn):
+    """(ok, detail): |diff| <= tol on `sel`; where that fails, <= tol + 1000 x the measured amplification of rounding noise"""
+    if not sel.any():
+        return True, {"max diff": 0.0, "tol": tol}
+    d = float(diff[sel].max())
+    if d <= tol:
+        return True, {"max diff": d, "tol": tol}
+    N = noise_fn() if noise_fn is not None else None
+    if N is None or N.shape != diff.shape:
+        return False, {"max diff": d, "tol": tol, "voxels": int((sel & (diff > tol)).sum())}
+    bad = sel & (diff > tol + 1e3 * N)
+    det = {"max diff": d, "tol": tol, "ill-conditioned voxels (measured noise > tol / 1000)": int((sel & (N > tol * 1e-3)).sum()),
+           "voxels beyond tol + 1000 x measured noise": int(bad.sum())}
+    if bad.any():
+        det["max diff among them"] = float(diff[bad].max())
+        det["measured noise there"] = float(N[bad].max())
+    return not bad.any(), det
+
+
+def _make(rng, nd, score, like=None, plain=False):
+    """One matching problem.  `like=(ns, ms)` fixes the shapes (pairs of searches that share every array shape).
+    `plain` keeps the classic ranges (templates 2..4, unit scale) for the streams that compare against the Lean model."""
+    if like is not None:
+        ns, ms = [int(x) for x in like[0]], [int(x) for x in like[1]]
     else:
-        tol = TOLN
-    d = float(np.max(np.abs(a - b))) if a.size else 0.0
-    return d <= tol, d
-
-
-def _make(rng, nd, score, big=False):
-    ms = [int(rng.integers(2, 5))] * nd if rng.random() < 0.7 else [int(x) for x in rng.integers(2, 5, size=nd)]
-    lo = 3 * max(ms)
-    ns = [int(rng.integers(lo, lo + (8 if nd == 2 else 4))) for _ in range(nd)]
-    target = rng.integers(-4, 5, size=ns).astype(np.float64) + rng.random(ns) * 0.25
+        hi = 5 if plain else (7 if nd == 2 else 6)
+        ms = [int(rng.integers(2, hi))] * nd if rng.random() < 0.7 else [int(x) for x in rng.integers(2, hi, size=nd)]
+        lo = 3 * max(ms)
+        ns = [int(rng.integers(lo, lo + (8 if nd == 2 else 4))) for _ in range(nd)]
+    sc_t = 1.0 if plain else float(rng.choice([1e-3, 1.0, 1.0, 1e3]))
+    off_t = 0.0 if plain else float(rng.choice([0.0, 0.0, 20.0])) * sc_t
+    sc_g = 1.0 if plain else float(rng.choice([1e-2, 1.0, 1.0, 1e2]))
+    off_g = 0.0 if plain else float(rng.choice([0.0, 0.0, 10.0])) * sc_g
+    target = (rng.integers(-4, 5, size=ns).astype(np.float64) + rng.random(ns) * 0.25) * sc_t + off_t
+    target = target.astype(np.float32).astype(np.float64)          # representable in every container used below
     template = rng.integers(-4, 5, size=ms).astype(np.float64)
+    sym = (not plain) and rng.random() < 0.15 and score != "MCC"
+    if score == "MCC" and not plain:
+        # the doubly-masked score normalises by the template's variance on the *overlap* of the masks, which changes from
+        # translation to translation: with lattice values a two-voxel overlap is constant one time in nine and the score 0/0
+        template = template + rng.random(ms) * 0.5
+    rev = (slice(None, None, -1),) * nd
+    if sym:                       # point-symmetric template: a rotation and its composition with the point reflection tie
+        template = template + template[rev]
     if template.std() == 0:
         template.flat[0] += 1
+    template = template * sc_g + off_g
     mask = None
     if score not in ("CC", "LCC") and rng.random() < 0.5:
         mask = (rng.random(ms) < 0.75).astype(np.float64)
+        if sym:
+            mask = np.maximum(mask, mask[rev])
         if mask.sum() < 3 or template[mask > 0].std() == 0:
             mask = None
         elif score != "MCC" and rng.random() < 0.5:
             # soft-edged mask (fractional weights): splits, schedules and histories must not matter for these either
-            mask = mask * rng.choice([0.25, 0.5, 0.75, 1.0], size=ms)
+            w = rng.choice([0.25, 0.5, 0.75, 1.0], size=ms)
+            mask = mask * (np.minimum(w, w[rev]) if sym else w)
     tmask = (rng.random(ns) < 0.9).astype(np.float64) if score == "MCC" else None
     rots = [r for r in S.grid_rotations(nd) if S.rot_ok_for_shape(r[0], ms)]
-    sel = rng.permutation(len(rots))[: int(rng.integers(2, min(len(rots), 5) + 1))]
+    sel = rng.permutation(len(rots))[: int(rng.integers(1 if not plain else 2, min(len(rots), 5) + 1))]
     R = [rots[i][2] for i in sel]
     if rng.random() < 0.4:       # one generic (interpolated) rotation: deterministic per tile, so invariance still holds
         from scipy.spatial.transform import Rotation
@@ -75,22 +178,282 @@ def _make(rng, nd, score, big=False):
     return ns, ms, target, template, mask, tmask, np.stack(R)
 
 
-def _rand_splits(rng, ns, ms):
+def _rand_splits(rng, ns, ms, pe=False, max_tiles=12):
+    """1..5 parts on a random subset of axes.  Without edge padding tiles keep room for a window (extent > template); with
+    edge padding every tile extent >= 2 is legitimate (the margin comes from the neighbours / the mirrored border)."""
     splits = {}
     for ax, n in enumerate(ns):
         if rng.random() < 0.6:
-            kmax = max(1, min(4, n // (max(ms) + 1)))
+            kmax = max(1, min(5, n // 2)) if pe else max(1, min(5, n // (max(ms) + 1)))
             splits[ax] = int(rng.integers(1, kmax + 1))
     if all(v == 1 for v in splits.values()):
         splits[int(rng.integers(0, len(ns)))] = 2
+    for _ in range(8):            # bounded: keep the number of tiles (40 ms of process set-up each) within the budget
+        if int(np.prod(list(splits.values()))) <= max_tiles:
+            break
+        ax = max(splits, key=lambda k: splits[k])
+        splits[ax] -= 1
     return splits
+
+
+def _generic(rng, nd):
+    """a rotation that needs interpolation"""
+    if nd == 3:
+        from scipy.spatial.transform import Rotation
+        return Rotation.from_euler("zyx", [float(x) for x in rng.uniform(20, 70, size=3)], degrees=True).as_matrix()
+    a = float(rng.uniform(0.4, 1.2))
+    return np.array([[np.cos(a), -np.sin(a)], [np.sin(a), np.cos(a)]])
+
+
+def _is_generic(R):
+    return bool(np.any(np.abs(np.abs(R) - np.rint(np.abs(R))) > 1e-6))
+
+
+def _try(ctx, inp, key, fn):
+    """an exception of the library on a legitimate request is a failure of the property with this very input"""
+    try:
+        return fn()
+    except Exception as e:
+        ctx.spec("the search completes for this tiling / schedule / representation / option set", inp, False,
+                 {"exception": repr(e)[:600]}, key=key)
+        return None
+
+
+_COUNTER = [0]
+
+
+def _path(ext):
+    _COUNTER[0] += 1
+    return os.path.join(E.scratch(), f"c02_{os.getpid()}_{_COUNTER[0]}{ext}")
+
+
+def _as_kind(arr, kind, files):
+    """the same values in another container (arr holds float32-representable float64 values)"""
+    a = np.ascontiguousarray(arr, dtype=np.float64)
+    if kind == "fortran":
+        return np.asfortranarray(a)
+    if kind == "strided-view":
+        big = np.full(tuple(2 * n + 3 for n in a.shape), 777.0)
+        v = big[tuple(slice(2, 2 + 2 * n, 2) for n in a.shape)]
+        v[...] = a
+        return v
+    if kind == "reversed-view":
+        rev = (slice(None, None, -1),) * a.ndim
+        return np.ascontiguousarray(a[rev])[rev]
+    if kind == "readonly":
+        b = a.copy()
+        b.setflags(write=False)
+        return b
+    if kind == "float32":
+        return a.astype(np.float32)
+    if kind == "int16":
+        return a.astype(np.int16)
+    if kind in ("memmap", "memmap64"):
+        p = _path(".raw")
+        files.append(p)
+        dt = np.float32 if kind == "memmap" else np.float64
+        mm = np.memmap(p, mode="w+", dtype=dt, shape=a.shape)
+        mm[:] = a
+        mm.flush()
+        del mm
+        return np.memmap(p, mode="r", dtype=dt, shape=a.shape)
+    if kind == "memmap-offset":          # the data section of a file with a header (what mapping an MRC file by hand gives)
+        p = _path(".raw")
+        files.append(p)
+        with open(p, "wb") as f:
+            f.write(b"\x07" * 1024)
+            f.write(a.astype(np.float32).tobytes())
+        return np.memmap(p, mode="r", dtype=np.float32, shape=a.shape, offset=1024)
+    if kind == "memmap-fortran":
+        p = _path(".raw")
+        files.append(p)
+        mm = np.memmap(p, mode="w+", dtype=np.float32, shape=a.shape, order="F")
+        mm[:] = a
+        mm.flush()
+        del mm
+        return np.memmap(p, mode="r", dtype=np.float32, shape=a.shape, order="F")
+    if kind == "memmap-view":            # a slice of a larger mapping
+        p = _path(".raw")
+        files.append(p)
+        big = tuple(n + 3 for n in a.shape)
+        mm = np.memmap(p, mode="w+", dtype=np.float32, shape=big)
+        mm[:] = 555.0
+        mm[tuple(slice(2, 2 + n) for n in a.shape)] = a
+        mm.flush()
+        del mm
+        return np.memmap(p, mode="r", dtype=np.float32, shape=big)[tuple(slice(2, 2 + n) for n in a.shape)]
+    if kind in ("density", "density-memmap"):
+        from tme import Density
+        dens = Density(a.astype(np.float32), origin=np.zeros(a.ndim), sampling_rate=np.ones(a.ndim))
+        if kind == "density":
+            return dens
+        p = _path(".mrc")
+        files.append(p)
+        with _quiet():
+            dens.to_file(p)
+            return Density.from_file(p, use_memmap=True)
+    return a.copy()
+
+
+def _cleanup(files):
+    for p in files:
+        try:
+            os.remove(p)
+        except OSError:
+            pass
+    del files[:]
+
+
+def _subsets(score, target, template, mask, tmask, R, *, splits=None, schedule=(1, 1), pad=True, pe=False, order=3,
+             cargs=None, invert=False, raw_template=False, late=False):
+    """real scan_subsets; `target` / `tmask` (and with raw_template the template and its mask) are handed over as they are"""
+    from tme.matching_data import MatchingData
+    from tme.matching_exhaustive import scan_subsets, MATCHING_EXHAUSTIVE_REGISTER
+    from tme.analyzer import MaxScoreOverRotations
+    with _quiet():
+        g = template if raw_template else np.array(template, dtype=np.float64)
+        gm = None if mask is None else (mask if raw_template else np.array(mask, dtype=np.float64))
+        if late:      # the way the documentation's example does it: masks and rotations assigned after construction
+            md = MatchingData(target=target, template=g, invert_target=invert)
+            if gm is not None:
+                md.template_mask = gm
+            if tmask is not None:
+                md.target_mask = tmask
+            md.rotations = np.array(R, dtype=np.float64)
+        else:
+            md = MatchingData(target=target, template=g, template_mask=gm, target_mask=tmask, rotations=np.array(R, dtype=np.float32),
+                              invert_target=invert)
+        setup, scoring = MATCHING_EXHAUSTIVE_REGISTER[score]
+        return scan_subsets(md, scoring, setup, callback_class=MaxScoreOverRotations,
+                            callback_class_args=dict({"score_threshold": -1e30} if cargs is None else cargs),
+                            job_schedule=tuple(schedule), target_splits=dict(splits or {}), pad_target_edges=pe,
+                            pad_fourier=pad, interpolation_order=order)
+
+
+def _scan_direct(score, target, template, mask, tmask, R, *, n_jobs=1, pad=True, order=3, cargs=None):
+    """real scan on the whole (unsplit, unpadded) data: the other public entry point with a job count"""
+    from tme.matching_data import MatchingData
+    from tme.matching_exhaustive import scan, MATCHING_EXHAUSTIVE_REGISTER
+    from tme.analyzer import MaxScoreOverRotations
+    with _quiet():
+        md = MatchingData(target=np.array(target, dtype=np.float64), template=np.array(template, dtype=np.float64),
+                          template_mask=None if mask is None else np.array(mask, dtype=np.float64),
+                          target_mask=None if tmask is None else np.array(tmask, dtype=np.float64),
+                          rotations=np.array(R, dtype=np.float32))
+        setup, scoring = MATCHING_EXHAUSTIVE_REGISTER[score]
+        return scan(md, setup, scoring, n_jobs=n_jobs, callback_class=MaxScoreOverRotations,
+                    callback_class_args=dict({"score_threshold": -1e30} if cargs is None else cargs),
+                    pad_fourier=pad, interpolation_order=order)
+
+
+def _dump(inp, **arrays):
+    """a failing input whose arrays are too large for the replay record: the arrays go next to the replays"""
+    if not isinstance(inp, dict) or inp.get("data") is not None or "data_file" in inp:
+        return
+    try:
+        import hashlib
+        import json
+        d = os.path.join(E.VERIF, "replays")
+        os.makedirs(d, exist_ok=True)
+        h = hashlib.sha1(json.dumps({k: v for k, v in inp.items() if k != "data"}, sort_keys=True, default=str).encode()).hexdigest()[:12]
+        path = os.path.join(d, f"C02_input_{h}.npz")
+        np.savez_compressed(path, **{k: np.asarray(v) for k, v in arrays.items() if v is not None})
+        inp["data_file"] = os.path.relpath(path, E.VERIF)
+    except Exception as e:      # diagnostics only
+        inp["data_file"] = "not written: " + repr(e)[:200]
+
+
+def _data(target, template, mask, tmask, R, limit=1600):
+    """the arrays themselves for the replay when they are small"""
+    if np.size(target) > limit:
+        return None
+    return {"target": np.asarray(target).tolist(), "template": np.asarray(template).tolist(),
+            "template_mask": None if mask is None else np.asarray(mask).tolist(),
+            "target_mask": None if tmask is None else np.asarray(tmask).tolist(), "rotations": np.asarray(R).tolist()}
+
+
+def _tile_geometry(ns, ms, tiles, pe):
+    """covered / bad / edge voxel sets of a tiling (see the clauses below)"""
+    covered = np.zeros(ns, bool)
+    bad = np.zeros(ns, bool)
+    edge = np.zeros(ns, bool)
+    for t in tiles:
+        box = tuple(slice(s_.start, s_.stop) for s_ in t)
+        covered[box] = True
+        good = np.zeros([s_.stop - s_.start for s_ in t], bool)
+        sl, empty = [], False
+        for s_, m in zip(t, ms):
+            lo, hi = m // 2, (s_.stop - s_.start) - 1 - (m - 1) // 2
+            if hi < lo:
+                empty = True
+            sl.append(slice(lo, hi + 1))
+        if not empty:
+            good[tuple(sl)] = True
+        bad[box] |= ~good
+        inner = np.zeros_like(good)
+        inner[tuple(slice(m // 2 + 1, max(m // 2 + 1, (s_.stop - s_.start) - 1 - (m - 1) // 2)) if not pe else
+                    slice(1, max(1, (s_.stop - s_.start) - 1)) for s_, m in zip(t, ms))] = True
+        edge[box] |= ~inner
+    return covered, bad, edge
+
+
+def _asserted(score, ns, ms, tiles, pe, mask, R):
+    """(voxels on which the tiled map must equal the unsplit one, key of the known finding that covers the others, geometry).
+    A position is *safe* when, in every tile that reports it, its template window lies inside that tile (tiles of equal
+    extent overlap and the merge takes the maximum, so one bad tile spoils the voxel); LCC additionally filters each tile
+    with a wrap-around Laplacian: keep one voxel away from tile faces; CAM standardises each tile."""
+    covered, bad, edge = _tile_geometry(ns, ms, tiles, pe)
+    ntiles = len(tiles)
+    special = None
+    if score == "LCC" and ntiles > 1:
+        special = "LCC:laplace-filter-per-tile"
+    generic = bool(np.any(np.abs(np.abs(R) - np.rint(np.abs(R))) > 1e-6))
+    if score == "CAM" and ntiles > 1 and (mask is not None or generic):
+        special = "CAM:standardised-per-tile"
+    if pe:
+        sel = ~edge if (score == "LCC" and ntiles > 1) else np.ones(ns, bool)
+    else:
+        sel = covered & ~bad & (~edge if (score == "LCC" and ntiles > 1) else True)
+    if score == "CAM" and special:
+        sel = np.zeros(ns, bool)
+    return sel, special, (covered, bad, edge)
+
+
+def _rotation_table(got, nd):
+    rot_ids = np.asarray(got[2])
+    table = {}
+    for k, v in dict(got[3]).items():
+        if isinstance(k, (bytes, bytearray)):
+            table[int(v)] = np.frombuffer(k, dtype=np.float32 if len(k) == 4 * nd * nd else np.float64).reshape(nd, nd).astype(np.float32)
+        else:
+            table[int(k)] = np.asarray(v, dtype=np.float32).reshape(nd, nd)
+    return rot_ids, table
+
+
+def _mcc_band(score_fn, R, ns):
+    """MCC zeroes a translation when the overlap of the (rotated, spline-smoothed) template mask with the target mask is below
+    0.3 * max(overlap) *of the array being scored*, i.e. of the tile (known finding MCC:overlap-threshold-per-tile).  The
+    translations on which the tile and the whole target decide differently are read off the single-rotation maps: exactly
+    one of the two is exactly 0.  Returns (band, worst difference among the single-rotation maps outside their own band)."""
+    band = np.zeros(ns, bool)
+    worst = 0.0
+    for r in R:
+        a, b = score_fn(r[None], False), score_fn(r[None], True)
+        if a is None or b is None or a.shape != tuple(ns) or b.shape != tuple(ns):
+            return None, float("inf")
+        dec = (a == 0.0) != (b == 0.0)
+        band |= dec
+        worst = max(worst, float(np.max(np.abs(a - b)[~dec])) if (~dec).any() else 0.0)
+    return band, worst
 
 
 def run(ctx):
     d = ctx.driver
+    _tick(ctx, "build+audit")
     rng = ctx.rng("main")
     from tme.matching_data import MatchingData
     from tme.matching_utils import split_shape
+    files = []
 
     # ---- the extracted loop programs as the compiled model sees them (sanity: all three pass the static check)
     loops = d.call("c02.loops")
@@ -99,12 +462,12 @@ def run(ctx):
     ctx.sample({"extracted corr_scoring loop": loops["corr"]["ops"]})
 
     # ---- rotation chunking
-    import contextlib
-    import io
-    for _ in range(ctx.budget(60, 400)):
+    for it in range(ctx.budget(60, 400)):
         n = int(rng.integers(1, 40))
         nj = int(rng.integers(1, 20))
-        with contextlib.redirect_stdout(io.StringIO()):
+        if it % 10 == 0:
+            n, nj = [(1, 1), (1, 16), (16, 16), (17, 16), (15, 16), (2, 3)][(it // 10) % 6]
+        with _quiet():
             md = MatchingData(target=np.zeros((4, 4, 4), np.float32), template=np.zeros((2, 2, 2), np.float32),
                               rotations=np.arange(n * 9, dtype=np.float32).reshape(n, 3, 3))
         chunks = md._split_rotations_on_jobs(nj)
@@ -116,13 +479,16 @@ def run(ctx):
         ctx.distinct(("chunks", n, nj))
         ctx.count("chunks:" + ("jobs>rotations" if nj > n else "jobs<=rotations"))
 
+    _tick(ctx, "chunks")
     # ---- histories: the array emitted for a rotation does not depend on what was scored before it
     nh = ctx.budget(14, 70)
     for it in range(nh):
         score = S.SCORES[it % 7]
         nd = 2 if it % 3 else 3
-        ns, ms, target, template, mask, tmask, R = _make(rng, nd, score)
+        prec64 = it % 4 != 3          # default (single) precision on the classic ranges, double precision on the wide ones
+        ns, ms, target, template, mask, tmask, R = _make(rng, nd, score, plain=not prec64)
         r, r2 = R[0], R[-1]
+        order = 3 if (it // 7) % 2 == 0 else 1
         if it % 2 == 0:
             # the rotation scored before is an interpolated one (its rotated mask has another volume than a grid rotation's),
             # the mask is not the full box and, for the doubly-masked score, the target mask excludes a region
@@ -136,155 +502,233 @@ def run(ctx):
                 mask = np.ones(ms)
                 mask[(0,) * nd] = 0
                 mask[(-1,) + (0,) * (nd - 1)] = 0
+                if template[mask > 0].std() == 0:      # constant under the mask: every normalised score is 0/0
+                    template[tuple(np.argwhere(mask > 0)[0])] += max(1.0, float(np.abs(template).max()))
             if score == "MCC":
                 tmask = np.ones(ns)
                 tmask[tuple(slice(0, max(1, n // 3)) for n in ns)] = 0
         outs = {}
-        for name, hist in (("[r]", [r]), ("[r',r]", [r2, r]), ("[r,r',r]", [r, r2, r])):
-            S.Recorder.log = []
-            S.run_scan(score, target, template, mask=mask, target_mask=tmask, rotations=np.stack(hist), pad=bool(it % 2),
-                       callback_class=S.Recorder, callback_args={})
-            outs[name] = [a for (_, a) in S.Recorder.log]
+        S.set_precision(prec64)
+        try:
+            for name, hist in (("[r]", [r]), ("[r',r]", [r2, r]), ("[r,r',r]", [r, r2, r])):
+                S.Recorder.log = []
+                S.run_scan(score, target, template, mask=mask, target_mask=tmask, rotations=np.stack(hist), pad=bool(it % 2),
+                           callback_class=S.Recorder, callback_args={}, order=order, dtype=np.float64 if prec64 else np.float32)
+                outs[name] = [a for (_, a) in S.Recorder.log]
+        finally:
+            S.set_precision(False)
         ok = len(outs["[r]"]) == 1 and len(outs["[r',r]"]) == 2 and len(outs["[r,r',r]"]) == 3
         dmax = 0.0
         if ok:
             base = outs["[r]"][0]
             for arr in (outs["[r',r]"][1], outs["[r,r',r]"][0], outs["[r,r',r]"][2]):
                 dmax = max(dmax, float(np.max(np.abs(arr - base))))
-            ok = dmax <= 1e-6 * max(1.0, float(np.max(np.abs(base))))
+            ok = dmax <= 1e-6 * max(float(np.max(np.abs(base))), 1e-300)
         inp = {"score": score, "ns": ns, "ms": ms, "pad": bool(it % 2), "mask": mask is not None, "earlier_rotation_interpolated": bool(it % 2 == 0),
-               "r": np.asarray(r).tolist(), "r_earlier": np.asarray(r2).tolist()}
+               "order": order, "double_precision": prec64, "r": np.asarray(r).tolist(), "r_earlier": np.asarray(r2).tolist(), "data": _data(target, template, mask, tmask, [r2, r])}
         ctx.spec("score map of a rotation independent of earlier rotations in the worker", inp, ok, {"max diff": dmax},
-                 key=f"history:{score}")
-        ctx.distinct(("history", score, tuple(ns), tuple(ms), bool(it % 2)))
+                 key=f"history:{score}", size=int(np.prod(ns)))
+        ctx.distinct(("history", score, tuple(ns), tuple(ms), bool(it % 2), order))
         ctx.count("history:" + score)
+        ctx.count(f"history:order={order}")
 
+    _tick(ctx, "histories")
+    # ---- an earlier search of the same shapes in this process must not show in a later one.  For a grid rotation rho,
+    # B = (-target, rho(template), rho(mask); rotation r o rho^-1) has a known answer: every score is odd in the target and
+    # B rotates its template onto the very array A scores, so B = -A whatever tiling is used.  A, B, A are run in a row.
+    S.set_precision(True)
+    try:
+        for it in range(ctx.budget(5, 35)):
+            score = S.SCORES[(3 * it + 1) % 7]
+            nd = 2 if it % 3 else 3
+            ns, ms, target, template, mask, tmask, R = _make(rng, nd, score)
+            grid = [g for g in S.grid_rotations(nd) if S.rot_ok_for_shape(g[0], ms)]
+            gr = grid[int(rng.integers(0, len(grid)))]
+            gp = grid[int(rng.integers(1, len(grid)))] if len(grid) > 1 else grid[0]
+            probe = rng.random(ms)
+            want = S.rotate_grid(probe, gr[0], gr[1])
+            gq = None
+            for cand in (gr[2] @ gp[2].T, gp[2].T @ gr[2]):
+                for g in grid:
+                    if np.allclose(g[2], cand) and np.array_equal(S.rotate_grid(S.rotate_grid(probe, gp[0], gp[1]), g[0], g[1]), want):
+                        gq = g
+            if gq is None:
+                ctx.count("sequence:skipped (no composed grid rotation)")
+                continue
+            if mask is not None and score in ("CORR", "CAM", "FLCSphericalMask"):
+                # these scores keep the mask fixed while the template rotates: use a mask every grid rotation leaves alone
+                mask = np.maximum.reduce([S.rotate_grid(mask, g[0], g[1]) for g in grid])
+                if template[mask > 0].std() == 0:
+                    mask = None
+            templateB = S.rotate_grid(template, gp[0], gp[1])
+            maskB = None if mask is None else S.rotate_grid(mask, gp[0], gp[1])
+            RA, RB = gr[2][None], gq[2][None]
+            pe = bool(it % 2 == 0)
+            splits = _rand_splits(rng, ns, ms, pe=pe, max_tiles=6) if it % 4 < 2 else {}
+            pad = bool(rng.random() < 0.5)
+            kw = dict(splits=splits, pad=pad, pe=pe)
+            inp = {"score": score, "ns": ns, "ms": ms, "splits": {str(k): v for k, v in splits.items()}, "pad_fourier": pad, "pad_edges": pe,
+                   "rotation_A": gr[2].tolist(), "rho": gp[2].tolist(), "rotation_B": gq[2].tolist(), "mask": mask is not None,
+                   "data": _data(target, template, mask, tmask, RA)}
+            key = f"sequence:{score}"
+            outs = [_try(ctx, inp, key, lambda t_=t_, g_=g_, m_=m_, r_=r_: np.asarray(_subsets(score, t_, g_, m_, tmask, r_, **kw)[0], np.float64))
+                    for (t_, g_, m_, r_) in ((target.copy(), template, mask, RA), (-target, templateB, maskB, RB), (target.copy(), template, mask, RA))]
+            if any(o is None for o in outs):
+                continue
+            a1, b, a2 = outs
+            tol = 4 * _tol(score, a1, target, template)
+            ok = a1.shape == b.shape == a2.shape == tuple(ns)
+            # (where tiles disagree with each other - the recorded findings - the merge takes a maximum, which is not odd)
+            sel = _asserted(score, ns, ms, split_shape(tuple(ns), splits), pe, mask, RA)[0]
+            ok1, det1, ok2, det2 = False, None, False, None
+            if ok:
+                cache = {}
+
+                def noise():
+                    if "N" not in cache:
+                        cache["N"] = _measured_noise(score, lambda s_: _try(ctx, inp, key, lambda: np.asarray(_subsets(
+                            score, target * s_, template, mask, tmask, RA, **kw)[0], np.float64)), a1)
+                    return cache["N"]
+                ok1, det1 = _agrees(np.abs(b + a1), sel, tol, noise)
+                ok2, det2 = _agrees(np.abs(a2 - a1), np.ones(ns, bool), tol, noise)
+            ctx.spec("a search after another search of the same shapes: (-target, rho(template), r o rho^-1) gives -(target, template, r)", inp,
+                     ok1, det1, key=key, size=int(np.prod(ns)))
+            ctx.spec("the same search repeated after another one of the same shapes gives the same map", inp,
+                     ok2, det2, key=key, size=int(np.prod(ns)))
+            ctx.distinct(("sequence", score, tuple(ns), tuple(ms), tuple(sorted(splits.items())), pad, pe))
+            ctx.count("sequence:" + score)
+    finally:
+        S.set_precision(False)
+
+    _tick(ctx, "sequences")
     # ---- splitting / schedules / rotation order
-    nsplit = ctx.budget(42, 400)
-    nproc = ctx.budget(8, 60)
+    nsplit = ctx.budget(42, 320)
+    nproc = ctx.budget(8, 48)
+    # (outer, inner); inner = 0 stands for "more inner jobs than rotations" (4 jobs, at most 2 rotations).  The pairs of one
+    # run are ordered by the size of the pool this process has to hold (outer, or inner when outer = 1): loky grows a pool
+    # cheaply and re-spawns it when the size changes otherwise
+    SCHED = [(2, 1), (1, 2), (2, 2), (3, 1), (1, 0), (4, 2), (2, 3), (1, 3), (5, 1), (1, 16), (3, 2), (16, 1)]
+    nsched = 8 if not ctx.thorough else len(SCHED)
+    sched_off = int(rng.integers(0, nsched))
+    plan = sorted((SCHED[(j + sched_off) % nsched] for j in range((nproc + 1) // 2)),
+                  key=lambda s_: ((s_[0] if s_[0] > 1 else (s_[1] or 4)), s_[1]))
+    kind_cycle = [KINDS[1:-1][i] for i in rng.permutation(len(KINDS) - 2)]
+    tkind_cycle = ["c", "fortran", "strided-view", "reversed-view", "readonly"]
+    pair_off = int(rng.integers(0, 7))
+    n_kind = 0
+    pair = None          # multi-process iterations come in pairs that share every array shape, the schedule and the splits
+    pending = []         # (references are computed in order A, B; the worker runs in order B, A: see below)
     for it in range(nsplit):
-        score = S.SCORES[it % 7]
-        nd = 2 if it % 4 else 3
-        ns, ms, target, template, mask, tmask, R = _make(rng, nd, score)
-        pad = bool(rng.random() < 0.6)
-        pe = bool(rng.random() < 0.65)
-        splits = _rand_splits(rng, ns, ms)
         multi = it < nproc
-        schedule = (1, 1)
-        if multi:
-            schedule = [(2, 1), (1, 2), (2, 2), (3, 1), (1, len(R) + 2), (4, 2), (2, 3), (1, 3)][it % 8]
+        if it == nproc:
+            _tick(ctx, "splits (worker processes)")
+        # (the sequence stream above covers scores 1, 4, 0, 3, 6; the first two pairs take 2 and 5, the others rotate)
+        score = S.SCORES[it % 7] if not multi else S.SCORES[([2, 5] + [(pair_off + 3 * j) % 7 for j in range(nproc)])[it // 2]]
+        nd = 2 if it % 4 else 3
+        second = multi and it % 2 == 1 and pair is not None
+        if second:
+            nd = pair["nd"]
+            ns, ms, target, template, mask, tmask, R = _make(rng, nd, score, like=(pair["ns"], pair["ms"]))
+            pad, pe, splits, schedule = pair["pad"], pair["pe"], pair["splits"], pair["schedule"]
+        else:
+            ns, ms, target, template, mask, tmask, R = _make(rng, nd, score)
+            pad = bool(rng.random() < 0.6)
+            pe = bool(rng.random() < 0.65)
+            splits = _rand_splits(rng, ns, ms, pe=pe, max_tiles=ctx.budget(9, 16))
+            if not multi and it % 5 == 2 and max(ms) >= 4:
+                # a tile border closer to the target's end than the margin: k tiles of extent L on an axis of extent
+                # (k-1) L + r with 0 < r < m // 2, so that the last regular tile finds r real neighbours and mirrors the rest
+                ax = int(np.argmax(ms))
+                k_ = int(rng.integers(4, 6))
+                r_ = int(rng.integers(1, ms[ax] // 2))
+                L_ = k_ + r_ - 1
+                ns2 = list(ns)
+                ns2[ax] = (k_ - 1) * L_ + r_
+                ns, ms, target, template, mask, tmask, R = _make(rng, nd, score, like=(ns2, ms))
+                pe, splits = True, {ax: k_}
+                ctx.count("split:tile border within the margin of the target's end")
+            schedule = (1, 1)
+            if multi:
+                schedule = plan[it // 2]
+                if schedule[1] == 0:
+                    schedule, R = (schedule[0], 4), R[:2]
+            pair = dict(nd=nd, ns=ns, ms=ms, pad=pad, pe=pe, splits=splits, schedule=schedule) if multi else None
+        # option flags, stratified so that the pairs that matter occur in every run: spline order 1 with an interpolated
+        # rotation; inversion with the unnormalised scores and with file-backed targets; memory-mapped results with
+        # every kind of threshold
+        order = 1 if rng.random() < 0.25 else 3
+        if order == 1 and not _is_generic(R):
+            R = np.concatenate([R, _generic(rng, nd)[None]])
         perm = rng.permutation(len(R))
-        common = dict(mask=mask, target_mask=tmask, pad=pad, pad_edges=pe)
+        # every second problem hands the target over in another container; the containers are cycled so that each occurs
+        kind = "c"
+        if it % 2 == 1 or rng.random() < 0.15:
+            kind = kind_cycle[n_kind % len(kind_cycle)]
+            n_kind += 1
+        if score in ("CC", "LCC") and (it // 7) % 3 == 1:
+            kind = "int16"
+        if nd == 3 and (it // 4) % 2 == 1:
+            kind = "density-memmap"     # (only 3-D MRC files are memory-mapped: the tile is then read from the file)
+        tkind = tkind_cycle[(it // 3) % len(tkind_cycle)] if it % 3 == 0 else "c"
+        if kind == "int16":
+            if score in ("CC", "LCC") and float(np.max(np.abs(target))) < 3e4 and float(np.std(target)) >= 1.0:
+                target = np.rint(target)      # integer-valued target in an integer container (unnormalised scores only)
+            else:
+                kind = "fortran"
+        p_inv = 0.5 if (kind.startswith("density") or kind in ("memmap", "memmap-offset") or score in ("CC", "LCC")) else 0.1
+        invert = bool(rng.random() < p_inv)
+        use_memmap = bool(rng.random() < 0.25)
+        thr_kind = str(rng.choice(["-inf", "default", "inside", "tie"])) if use_memmap else \
+            str(rng.choice(["-inf", "-inf", "-inf", "default", "inside", "tie"]))
         S.set_precision(True)     # float64 in this process *and* (backend re-selected per worker) in every worker process
         try:
-            ref = S.run_subsets(score, target, template, rotations=R, splits={}, schedule=(1, 1), dtype=np.float64, **common)
-            got = S.run_subsets(score, target, template, rotations=R[perm], splits=splits, schedule=schedule, dtype=np.float64, **common)
-            inp = {"score": score, "ns": ns, "ms": ms, "splits": {str(k): v for k, v in splits.items()}, "schedule": list(schedule),
-                   "perm": perm.tolist(), "pad_fourier": pad, "pad_edges": pe, "n_rot": len(R), "mask": mask is not None}
-            rs, gs = np.asarray(ref[0], np.float64), np.asarray(got[0], np.float64)
-            if not (rs.shape == gs.shape == tuple(ns)):
-                ctx.spec("aggregated map has the target's shape", inp, False, {"ref": rs.shape, "got": gs.shape}, key="split:shape")
+            base = dict(pad=pad, pe=pe, order=order, invert=invert)
+            inp0 = {"score": score, "ns": ns, "ms": ms, "splits": {}, "schedule": [1, 1], "pad_fourier": pad, "pad_edges": pe, "n_rot": len(R),
+                    "order": order, "invert_target": invert, "data": _data(target, template, mask, tmask, R)}
+            ref0 = _try(ctx, inp0, f"raises:{score}", lambda: _subsets(score, target.copy(), template, mask, tmask, R, splits={}, schedule=(1, 1), **base))
+            if ref0 is None:
                 continue
-            tiles = split_shape(tuple(ns), splits)
-            ntiles = len(tiles)
-            # a position is *safe* when, in every tile that reports it, its template window lies inside that tile
-            # (tiles of equal extent overlap and the merge takes the maximum, so one bad tile spoils the voxel);
-            # LCC additionally filters each tile with a wrap-around Laplacian: keep one voxel away from tile faces
-            covered = np.zeros(ns, bool)
-            bad = np.zeros(ns, bool)
-            edge = np.zeros(ns, bool)
-            for t in tiles:
-                box = tuple(slice(s_.start, s_.stop) for s_ in t)
-                covered[box] = True
-                good = np.zeros([s_.stop - s_.start for s_ in t], bool)
-                sl, empty = [], False
-                for s_, m in zip(t, ms):
-                    lo, hi = m // 2, (s_.stop - s_.start) - 1 - (m - 1) // 2
-                    if hi < lo:
-                        empty = True
-                    sl.append(slice(lo, hi + 1))
-                if not empty:
-                    good[tuple(sl)] = True
-                bad[box] |= ~good
-                inner = np.zeros_like(good)
-                inner[tuple(slice(m // 2 + 1, max(m // 2 + 1, (s_.stop - s_.start) - 1 - (m - 1) // 2)) if not pe else
-                            slice(1, max(1, (s_.stop - s_.start) - 1)) for s_, m in zip(t, ms))] = True
-                edge[box] |= ~inner
-            in_tile = covered & ~bad
-            inside_target = S.inside_mask(ns, ms)
-            tol = 1e-7 if score not in ("CC", "LCC") else 1e-9 * max(1.0, float(np.max(np.abs(rs))))
-            diff = np.abs(rs - gs)
-            special = None
-            if score == "LCC" and ntiles > 1:
-                special = "LCC:laplace-filter-per-tile"
-            generic = bool(np.any(np.abs(np.abs(R) - np.rint(np.abs(R))) > 1e-6))
-            if score == "CAM" and ntiles > 1 and (mask is not None or generic):
-                special = "CAM:standardised-per-tile"
-            if pe:
-                sel = ~edge if score == "LCC" else np.ones(ns, bool)
-                if score == "CAM" and special:
-                    sel = np.zeros(ns, bool)
-                ok = bool(diff[sel].max() <= tol) if sel.any() else True
-                ctx.spec("edge padding: aggregated map independent of splits / schedule / rotation order", inp, ok,
-                         {"max diff": float(diff[sel].max()) if sel.any() else 0.0, "tiles": ntiles}, key=f"split:padded:{score}")
-                if special and (~sel).any():
-                    ctx.spec("edge padding: the *whole* aggregated map is independent of the splits", inp,
-                             bool(diff[~sel].max() <= tol), {"max diff": float(diff[~sel].max()), "tiles": ntiles},
-                             key=special, size=int(np.prod(ns)))
-            else:
-                sel = in_tile & (~edge if score == "LCC" else True)
-                if score == "CAM" and special:
-                    sel = np.zeros(ns, bool)
-                ok1 = bool(diff[sel].max() <= tol) if sel.any() else True
-                ctx.spec("no edge padding: translations whose window lies inside every tile that reports them agree", inp, ok1,
-                         {"max diff": float(diff[sel].max()) if sel.any() else 0.0, "tiles": ntiles}, key=f"split:nopad:inside-tile:{score}")
-                rest = inside_target & ~sel
-                if rest.any():
-                    ctx.spec("no edge padding: every translation whose window lies inside the target agrees", inp,
-                             bool(diff[rest].max() <= tol),
-                             {"max diff": float(diff[rest].max()), "tiles": ntiles, "voxels": int(rest.sum())},
-                             key=special or "scan_subsets:nopad-internal-border", size=int(np.prod(ns)))
-            # a rotation that attains the value: identifiers map back through the table to a rotation whose own
-            # (identically tiled) map attains the aggregated value
-            try:
-                rot_ids = np.asarray(got[2])
-                tab = dict(got[3])
-                table = {}
-                for k, v in tab.items():
-                    if isinstance(k, (bytes, bytearray)):
-                        table[int(v)] = np.frombuffer(k, dtype=np.float32 if len(k) == 4 * nd * nd else np.float64).reshape(nd, nd).astype(np.float32)
-                    else:
-                        table[int(k)] = np.asarray(v, dtype=np.float32).reshape(nd, nd)
-                ids = sorted(set(int(x) for x in np.unique(rot_ids)))
-                ok3 = all(i in table for i in ids if i >= 0) and len(table) <= len(R)
-                if ok3 and len(R) <= 6:
-                    att = np.full(ns, np.nan)
-                    for i in ids:
-                        if i < 0:
-                            continue
-                        single = S.run_subsets(score, target, template, rotations=table[i][None], splits=splits, schedule=(1, 1),
-                                               dtype=np.float64, **common)
-                        m_ = np.asarray(single[0], np.float64)
-                        att[rot_ids == i] = m_[rot_ids == i]
-                    selr = rot_ids >= 0
-                    ok3 = bool(np.nanmax(np.abs(att - gs)[selr]) <= 10 * tol + 1e-6) if selr.any() else True
-                ctx.spec("stored rotation identifier maps to a rotation that attains the aggregated value", inp, ok3,
-                         {"ids": ids[:8], "table": len(table)}, key=f"split:rotation-attains:{score}")
-            except Exception as e:   # result tuple layout changed: correspondence, not a verdict
-                ctx.agree("result tuple layout (scores, offset, rotations, rotation table)", inp, repr(e), "ok")
+            r0 = np.asarray(ref0[0], np.float64)
+            cargs, thr = {"score_threshold": -1e30}, -1e30
+            if thr_kind == "default":
+                cargs, thr = {}, 0.0
+            elif thr_kind == "inside":
+                thr = float(np.quantile(r0, float(rng.uniform(0.2, 0.8))))
+                cargs = {"score_threshold": thr}
+            elif thr_kind == "tie":
+                thr = float(r0.flat[int(rng.integers(0, r0.size))])
+                cargs = {"score_threshold": thr}
+            ref = ref0 if thr_kind == "-inf" else _try(ctx, inp0, f"raises:{score}", lambda: _subsets(
+                score, target.copy(), template, mask, tmask, R, splits={}, schedule=(1, 1), cargs=cargs, **base))
+            if ref is None:
+                continue
+            inp = {"score": score, "ns": ns, "ms": ms, "splits": {str(k): v for k, v in splits.items()}, "schedule": list(schedule),
+                   "perm": perm.tolist(), "pad_fourier": pad, "pad_edges": pe, "n_rot": len(R), "mask": mask is not None,
+                   "order": order, "invert_target": invert, "target_as": kind, "template_as": tkind, "assigned_after_construction": bool(it % 4 == 1), "score_threshold": thr_kind if thr_kind != "inside" else thr,
+                   "use_memmap": use_memmap, "target_scale": float(np.std(target)), "target_mean": float(np.mean(target)),
+                   "template_scale": float(np.std(template)), "template_mean": float(np.mean(template)),
+                   "data": _data(target, template, mask, tmask, R)}
+            job = dict(score=score, ns=ns, ms=ms, nd=nd, target=target, template=template, mask=mask, tmask=tmask, R=R, perm=perm,
+                       splits=splits, schedule=schedule, base=base, cargs=cargs, thr=thr, thr_kind=thr_kind, use_memmap=use_memmap,
+                       kind=kind, tkind=tkind, inp=inp, ref=ref, r0=r0, multi=multi, it=it)
+            # Stale per-process state (anything cached by shape) is invisible when reference and worker runs see the same
+            # order of searches.  The references of a pair were computed in this process in order A, B; the workers get B first.
+            if multi and not second and it + 1 < nproc:
+                pending.append(job)
+                continue
+            todo = [job] + pending
+            pending = []
+            for jb in todo:
+                _split_job(ctx, rng, jb, files, split_shape)
         finally:
             S.set_precision(False)
-        ctx.distinct(("split", score, tuple(ns), tuple(ms), tuple(sorted(splits.items())), schedule, tuple(perm.tolist()), pad, pe))
-        ctx.count("split:" + ("padded" if pe else "nopad"))
-        ctx.count("schedule:" + ("multi-process" if multi else "in-process"))
-        ctx.count(f"tiles:{min(ntiles, 9)}")
-        ctx.count("score:" + score)
-        if it < 2:
-            ctx.sample(inp)
+            _cleanup(files)
 
-    # ---- inner jobs only (no tiles): every voxel must agree exactly with the single-job run, for every kind of mask
+    _tick(ctx, "splits")
+    # ---- inner jobs only (no tiles): every voxel must agree exactly with the single-job run, for every kind of mask;
+    # through scan_subsets' schedule (1, k) and through scan(n_jobs=k) on the whole data
     masked = [x for x in ("FLC", "FLCSphericalMask", "CORR", "CAM", "MCC") if x in S.SCORES]
-    for it in range(ctx.budget(6, 50)):
+    for it in range(ctx.budget(7, 50)):
         score = masked[it % len(masked)]
         nd = 2 if it % 3 else 3
         ns, ms, target, template, mask, tmask, R = _make(rng, nd, score)
@@ -301,41 +745,130 @@ def run(ctx):
                 mask = mask * rng.choice([0.25, 0.5, 0.75, 1.0], size=ms)
         if score == "FLCSphericalMask" and mask is not None:
             mask = np.maximum.reduce([S.rotate_grid(mask, p_, f_) for p_, f_, _ in S.grid_rotations(nd) if S.rot_ok_for_shape(p_, ms)])
-        k = [2, 3, len(R) + 2, 4][it % 4]
+        # pool sizes ascend in blocks (a pool that grows is extended, a pool of another size is re-spawned); the last
+        # iteration of each block has more jobs than rotations
+        nin = ctx.budget(7, 50)
+        k = 2 + (3 * it) // nin if not ctx.thorough else 2 + (7 * it) // nin
+        if (3 * (it + 1)) // nin != (3 * it) // nin or it % 5 == 4:
+            R = R[: max(1, k - 2)]
         pad = bool(it % 2)
-        S.set_precision(True)
-        try:
-            common = dict(mask=mask, target_mask=tmask, pad=pad, pad_edges=False, rotations=R, splits={}, dtype=np.float64)
-            ref = S.run_subsets(score, target, template, schedule=(1, 1), **common)
-            got = S.run_subsets(score, target, template, schedule=(1, k), **common)
-        finally:
-            S.set_precision(False)
-        inp = {"score": score, "ns": ns, "ms": ms, "schedule": [1, k], "n_rot": len(R), "mask_kind": kind, "pad_fourier": pad,
+        via = "scan" if it % 3 == 2 else "scan_subsets"
+        # spline order 1 always comes with an interpolated rotation (first in the list: it survives the trimming above);
+        # the direct scan(n_jobs=k) runs are of that kind, so the options scan_subsets forwards to scan are compared too
+        order = 1 if (it % 3 == 1 or via == "scan") else 3
+        if order == 1:
+            R = np.concatenate([_generic(rng, nd)[None], R[: max(1, len(R) - 1)] if _is_generic(R[-1]) else R])
+        cargs = {} if it % 5 == 3 else {"score_threshold": -1e30}        # default threshold (0) in every inner job and in the merge
+        inp = {"score": score, "ns": ns, "ms": ms, "schedule": [1, k], "through": via, "n_rot": len(R), "mask_kind": kind, "pad_fourier": pad,
+               "order": order, "score_threshold": "default" if not cargs else -1e30,
                "target": target.tolist(), "template": template.tolist(), "mask": None if mask is None else mask.tolist(),
                "rotations": np.asarray(R).tolist()}
+        S.set_precision(True)
+        try:
+            kw = dict(pad=pad, order=order, cargs=cargs)
+            ref = _try(ctx, inp, f"raises:{score}", lambda: _subsets(score, target.copy(), template, mask, tmask, R, splits={}, schedule=(1, 1), pe=False, **kw))
+            if via == "scan":
+                got = _try(ctx, inp, f"raises:{score}", lambda: _scan_direct(score, target, template, mask, tmask, R, n_jobs=k, **kw))
+            else:
+                got = _try(ctx, inp, f"raises:{score}", lambda: _subsets(score, target.copy(), template, mask, tmask, R, splits={}, schedule=(1, k), pe=False, **kw))
+        finally:
+            S.set_precision(False)
+        if ref is None or got is None:
+            continue
         a, b = np.asarray(ref[0], np.float64), np.asarray(got[0], np.float64)
-        ok = a.shape == b.shape and bool(np.max(np.abs(a - b)) <= 1e-7)
-        ctx.spec("inner jobs: aggregated map equals the single-job run on every voxel", inp, ok,
-                 {"max diff": float(np.max(np.abs(a - b))) if a.shape == b.shape else None}, key=f"innerjobs:{score}")
-        ctx.distinct(("innerjobs", score, tuple(ns), tuple(ms), k, kind, pad))
+        ok, det = False, {"shapes": [list(a.shape), list(b.shape)]}
+        if a.shape == b.shape:
+            def noise():
+                S.set_precision(True)
+                try:
+                    return _measured_noise(score, lambda s_: _try(ctx, inp, f"raises:{score}", lambda: np.asarray(_subsets(
+                        score, target * s_, template, mask, tmask, R, splits={}, schedule=(1, 1), pe=False, **kw)[0], np.float64)), a)
+                finally:
+                    S.set_precision(False)
+            ok, det = _agrees(np.abs(a - b), np.ones(a.shape, bool), 1e-7, noise)
+        ctx.spec("inner jobs: aggregated map equals the single-job run on every voxel", inp, ok, det, key=f"innerjobs:{score}")
+        ctx.distinct(("innerjobs", score, tuple(ns), tuple(ms), k, kind, pad, via, order))
         ctx.count("innerjobs:mask=" + kind)
+        ctx.count("innerjobs:through=" + via)
 
+    _tick(ctx, "innerjobs")
+    # ---- MCC, target mask with an empty region, tiles with edge padding: outside the band where the tile's own overlap
+    # threshold can decide differently (known finding MCC:overlap-threshold-per-tile) the maps agree
+    S.set_precision(True)
+    try:
+        for it in range(ctx.budget(3, 24)):
+            nd = 2 if it % 3 else 3
+            ns, ms, target, template, mask, tmask, R = _make(rng, nd, "MCC")
+            rots = [r for r in S.grid_rotations(nd) if S.rot_ok_for_shape(r[0], ms)]
+            R = np.stack([rots[i][2] for i in rng.permutation(len(rots))[: int(rng.integers(1, 4))]])
+            mask = (rng.random(ms) < 0.8).astype(np.float64)
+            if mask.sum() < 3 or template[mask > 0].std() == 0:
+                mask = np.ones(ms)
+            ax = int(rng.integers(0, nd))
+            tmask = np.ones(ns)
+            hole = [slice(None)] * nd
+            hole[ax] = slice(0, ns[ax] // 2)
+            tmask[tuple(hole)] = (rng.random(tmask[tuple(hole)].shape) < float(rng.choice([0.0, 0.1, 0.4]))).astype(np.float64)
+            splits = {ax: int(rng.integers(2, 4))}
+            pad = bool(it % 2)
+            inp = {"score": "MCC", "ns": ns, "ms": ms, "splits": {str(ax): splits[ax]}, "pad_fourier": pad, "pad_edges": True, "n_rot": len(R),
+                   "data": _data(target, template, mask, tmask, R)}
+            ref = _try(ctx, inp, "raises:MCC", lambda: _subsets("MCC", target.copy(), template, mask, tmask.copy(), R, splits={}, pad=pad, pe=True))
+            got = _try(ctx, inp, "raises:MCC", lambda: _subsets("MCC", target.copy(), template, mask, tmask.copy(), R, splits=splits, pad=pad, pe=True))
+            if ref is None or got is None:
+                continue
+            rs, gs = np.asarray(ref[0], np.float64), np.asarray(got[0], np.float64)
+            if not (rs.shape == gs.shape == tuple(ns)):
+                ctx.spec("aggregated map has the target's shape", inp, False, {"ref": rs.shape, "got": gs.shape}, key="split:shape")
+                continue
+            def one(r_, tiled):
+                res = _try(ctx, inp, "raises:MCC", lambda: _subsets("MCC", target.copy(), template, mask, tmask.copy(), r_,
+                                                                    splits=splits if tiled else {}, pad=pad, pe=True))
+                return None if res is None else np.asarray(res[0], np.float64)
+            band, worst = _mcc_band(one, R, ns)
+            if band is None:
+                continue
+            # Conditioning: where only a sliver of the smoothed template mask meets the target mask the score is a quotient of
+            # two numbers at noise level (the library's own guard only replaces denominators below 1e3 * eps * max), so the
+            # clause is asserted on the translations whose window (one voxel of slack on every side) lies inside the populated
+            # part of the target mask - the same conditioning as in the main stream - and that both runs keep or both zero
+            from scipy.ndimage import minimum_filter
+            full = minimum_filter(tmask, size=[m + 2 for m in ms], mode="reflect") >= 1.0
+            diff = np.abs(rs - gs)
+            chk = full & ~band
+            dmax = float(diff[chk].max()) if chk.any() else 0.0
+            ctx.count("mcc-target-mask-hole:asserted voxels", int(chk.sum()))
+            ctx.spec("edge padding: aggregated map independent of splits / schedule / rotation order", inp, dmax <= 1e-7,
+                     {"max diff (full-overlap translations kept or dropped by both)": dmax, "asserted voxels": int(chk.sum()),
+                      "translations decided differently": int(band.sum()), "max diff on all translations decided alike (single rotations)": worst}, key="split:padded:MCC", size=int(np.prod(ns)))
+            if band.any():
+                ctx.spec("edge padding: the *whole* aggregated map is independent of the splits", inp, bool(diff[band].max() <= 1e-7),
+                         {"max diff": float(diff[band].max()), "voxels": int(band.sum())}, key="MCC:overlap-threshold-per-tile",
+                         size=int(np.prod(ns)))
+            ctx.distinct(("mcc-hole", tuple(ns), tuple(ms), ax, splits[ax], pad))
+            ctx.count("mcc-target-mask-hole")
+    finally:
+        S.set_precision(False)
+
+    _tick(ctx, "mcc-hole")
     # ---- per-tile correspondence with the Lean model in the `valid` frame (CC, exact integers)
     for it in range(ctx.budget(6, 40)):
         nd = 2 if it % 2 == 0 else 3
-        ms = [int(x) for x in rng.integers(2, 4, size=nd)]
+        ms = [int(x) for x in rng.integers(2, 6 if nd == 2 else 4, size=nd)]
         ns = [int(rng.integers(2 * m + 1, 2 * m + (6 if nd == 2 else 3))) for m in ms]
         target = rng.integers(-4, 5, size=ns)
         template = rng.integers(-4, 5, size=ms)
         pad = bool(it % 3)
-        with contextlib.redirect_stdout(io.StringIO()):
+        with _quiet():
             md = MatchingData(target=target.astype(np.float32), template=template.astype(np.float32))
             sl = tuple(slice(int(a), int(b)) for a, b in ((lambda a: (a, int(rng.integers(a + 1, n + 1))))(int(rng.integers(0, n))) for n in ns))
+            if it % 3 == 1:       # slice ends one voxel before the target's end / starts one voxel after its start: real neighbour + mirror
+                sl = tuple(slice(1 if s_.start <= 1 else s_.start, n - 1) if s_.start < n - 2 else s_ for s_, n in zip(sl, ns))
             sub = md.subset_by_slice(target_slice=sl, target_pad=np.array(md.target_padding(pad_target=True)))
         tile = np.asarray(sub._target, np.float64)
         from tme.matching_exhaustive import scan, MATCHING_EXHAUSTIVE_REGISTER
         from tme.analyzer import MaxScoreOverRotations
-        with contextlib.redirect_stdout(io.StringIO()):
+        with _quiet():
             fp = sub.fourier_padding(pad_fourier=pad)
             res = scan(sub, *MATCHING_EXHAUSTIVE_REGISTER["CC"], n_jobs=1, callback_class=MaxScoreOverRotations,
                        callback_class_args={"score_threshold": -1e30}, pad_fourier=pad)
@@ -357,6 +890,126 @@ def run(ctx):
                      bool(np.array_equal(sc[inside], glob[inside])), key="tile:offset")
         ctx.distinct(("tile", tuple(ns), tuple(ms), tuple((s.start, s.stop) for s in sl), pad))
         ctx.count("tile-valid-frame")
+    _tick(ctx, "tile-model")
+    ctx.extra.pop("_c02_t", None)
+
+
+def _split_job(ctx, rng, jb, files, split_shape):
+    """the tiled / scheduled / permuted run of one prepared problem against its unsplit single-job reference"""
+    score, ns, ms, nd = jb["score"], jb["ns"], jb["ms"], jb["nd"]
+    target, template, mask, tmask, R, perm = jb["target"], jb["template"], jb["mask"], jb["tmask"], jb["R"], jb["perm"]
+    splits, schedule, base, inp, ref, r0 = jb["splits"], jb["schedule"], jb["base"], jb["inp"], jb["ref"], jb["r0"]
+    pe, kind, thr, thr_kind, multi, it = base["pe"], jb["kind"], jb["thr"], jb["thr_kind"], jb["multi"], jb["it"]
+    tkind = jb["tkind"]
+
+    def spec(clause, inp_, ok, detail=None, key=None, size=None):
+        if not ok and (key or "").split(":")[0] not in ("LCC", "CAM", "MCC", "scan_subsets"):     # (not for the recorded findings)
+            _dump(inp_, target=target, template=template, template_mask=mask, target_mask=tmask, rotations=R)
+        return ctx.spec(clause, inp_, ok, detail, key=key, size=size)
+    cargs = dict(jb["cargs"])
+    if jb["use_memmap"]:
+        cargs["use_memmap"] = True
+    tk = "c"
+    if tmask is not None and (kind.startswith("memmap") or kind.startswith("density") or kind == "fortran"):
+        tk = kind
+    got = _try(ctx, inp, f"raises:{score}", lambda: _subsets(
+        score, _as_kind(target, kind, files), _as_kind(template, tkind, files), None if mask is None else _as_kind(mask, tkind, files),
+        None if tmask is None else _as_kind(tmask, tk, files), R[perm], splits=splits, schedule=schedule, cargs=cargs,
+        raw_template=True, late=bool(it % 4 == 1), **base))
+    if got is None:
+        return
+    rs, gs = np.asarray(ref[0], np.float64), np.asarray(got[0], np.float64)
+    ctx.distinct(("split", score, tuple(ns), tuple(ms), tuple(sorted(splits.items())), schedule, tuple(perm.tolist()), base["pad"], pe,
+                  kind, thr_kind, jb["use_memmap"], base["invert"], base["order"]))
+    ctx.count("split:" + ("padded" if pe else "nopad"))
+    ctx.count("schedule:" + ("multi-process" if multi else "in-process"))
+    ctx.count("score:" + score)
+    ctx.count("target-as:" + kind)
+    ctx.count("template-as:" + tkind)
+    ctx.count("masks / rotations assigned after construction:" + str(bool(it % 4 == 1)))
+    ctx.count("threshold:" + thr_kind)
+    ctx.count("use_memmap:" + str(jb["use_memmap"]))
+    ctx.count("invert_target:" + str(base["invert"]))
+    ctx.count(f"order:{base['order']}")
+    if it < 2:
+        ctx.sample({k: v for k, v in inp.items() if k != "data"})
+    if not (rs.shape == gs.shape == tuple(ns)):
+        spec("aggregated map has the target's shape", inp, False, {"ref": rs.shape, "got": gs.shape}, key="split:shape")
+        return
+    tiles = split_shape(tuple(ns), splits)
+    ntiles = len(tiles)
+    ctx.count(f"tiles:{min(ntiles, 9)}")
+    sel, special, _ = _asserted(score, ns, ms, tiles, pe, mask, R)
+    inside_target = S.inside_mask(ns, ms)
+    tol = _tol(score, r0, target, template)
+    diff = np.abs(rs - gs)
+    size = int(np.prod(ns))
+    cache = {}
+
+    def noise():
+        if "N" not in cache:
+            cache["N"] = _measured_noise(score, lambda s_: _try(ctx, inp, f"raises:{score}", lambda: np.asarray(_subsets(
+                score, target * s_, template, mask, tmask, R, splits={}, schedule=(1, 1), cargs=jb["cargs"], **base)[0], np.float64)), rs)
+            ctx.count("conditioning measured (a difference above the well-conditioned tolerance)")
+        return cache["N"]
+    if pe:
+        ok, det = _agrees(diff, sel, tol, noise)
+        spec("edge padding: aggregated map independent of splits / schedule / rotation order", inp, ok,
+                 dict(det, tiles=ntiles), key=f"split:padded:{score}", size=size)
+        if special and (~sel).any():
+            spec("edge padding: the *whole* aggregated map is independent of the splits", inp,
+                     bool(diff[~sel].max() <= tol), {"max diff": float(diff[~sel].max()), "tiles": ntiles},
+                     key=special, size=size)
+    else:
+        ok1, det = _agrees(diff, sel, tol, noise)
+        spec("no edge padding: translations whose window lies inside every tile that reports them agree", inp, ok1,
+                 dict(det, tiles=ntiles), key=f"split:nopad:inside-tile:{score}", size=size)
+        rest = inside_target & ~sel
+        if rest.any():
+            spec("no edge padding: every translation whose window lies inside the target agrees", inp,
+                     bool(diff[rest].max() <= tol),
+                     {"max diff": float(diff[rest].max()), "tiles": ntiles, "voxels": int(rest.sum())},
+                     key=special or "scan_subsets:nopad-internal-border", size=size)
+    try:
+        rot_ids, table = _rotation_table(got, nd)
+    except Exception as e:   # result tuple layout changed: correspondence, not a verdict
+        ctx.agree("result tuple layout (scores, offset, rotations, rotation table)", inp, repr(e), "ok")
+        return
+    # 'no rotation' marker: exactly where no rotation exceeds the threshold (judged on the unthresholded reference, away
+    # from the threshold by more than the noise)
+    if thr_kind in ("inside", "tie") and sel.any() and rot_ids.shape == tuple(ns):
+        below = sel & (r0 < thr - 10 * tol)
+        above = sel & (r0 > thr + 10 * tol)
+        okm = bool(np.all(rot_ids[below] < 0)) and bool(np.all(rot_ids[above] >= 0))
+        if not okm and noise() is not None:          # (scores that rounding noise moves across the threshold)
+            below &= r0 < thr - 1e3 * noise()
+            above &= r0 > thr + 1e3 * noise()
+            okm = bool(np.all(rot_ids[below] < 0)) and bool(np.all(rot_ids[above] >= 0))
+        spec("score threshold: 'no rotation' marker exactly where no rotation exceeds the threshold, whatever the tiling", inp, okm,
+                 {"threshold": thr, "marker where a rotation exceeds": int(np.sum(rot_ids[above] < 0)),
+                  "rotation where none exceeds": int(np.sum(rot_ids[below] >= 0))}, key=f"split:threshold-marker:{score}", size=size)
+    # a rotation that attains the value: identifiers map back through the table to a rotation whose own
+    # (identically tiled) map attains the aggregated value
+    ids = sorted(set(int(x) for x in np.unique(rot_ids)))
+    ok3 = rot_ids.shape == tuple(ns) and all(i in table for i in ids if i >= 0) and len(table) <= len(R)
+    pos = [i for i in ids if i >= 0]
+    if ok3 and (ctx.thorough or multi or it % 2 == 0):
+        if len(pos) > 3:
+            pos = [pos[i] for i in sorted(rng.permutation(len(pos))[:3])]
+        att = np.full(ns, np.nan)
+        chk = np.zeros(ns, bool)
+        for i in pos:
+            single = _try(ctx, inp, f"raises:{score}", lambda: _subsets(score, target.copy(), template, mask, tmask, table[i][None],
+                                                                        splits=splits, schedule=(1, 1), **base))
+            if single is None:
+                return
+            m_ = np.asarray(single[0], np.float64)
+            att[rot_ids == i] = m_[rot_ids == i]
+            chk |= rot_ids == i
+        tol3 = 10 * tol + 1e-6 * max(1.0, float(np.max(np.abs(gs))) if score in ("CC", "LCC") else 1.0)
+        ok3 = _agrees(np.where(chk, np.abs(att - gs), 0.0), chk, tol3, noise)[0]
+    spec("stored rotation identifier maps to a rotation that attains the aggregated value", inp, ok3,
+             {"ids": ids[:8], "table": len(table)}, key=f"split:rotation-attains:{score}", size=size)
 
 
 def search(ctx):
@@ -372,10 +1025,10 @@ def search(ctx):
         for name, hist in (("a", [r]), ("b", [r2, r]), ("c", [r, r2, r])):
             S.Recorder.log = []
             S.run_scan(score, target, template, mask=mask, target_mask=tmask, rotations=np.stack(hist), pad=bool(it % 2),
-                       callback_class=S.Recorder, callback_args={})
+                       callback_class=S.Recorder, callback_args={}, dtype=np.float64)
             outs[name] = [a for (_, a) in S.Recorder.log]
         base = outs["a"][0]
         dmax = max(float(np.max(np.abs(x - base))) for x in (outs["b"][1], outs["c"][0], outs["c"][2]))
         ctx.spec("score map of a rotation independent of earlier rotations in the worker",
-                 {"score": score, "ns": ns, "ms": ms, "pad": bool(it % 2)}, dmax <= 1e-6 * max(1.0, float(np.max(np.abs(base)))),
+                 {"score": score, "ns": ns, "ms": ms, "pad": bool(it % 2)}, dmax <= 1e-6 * max(float(np.max(np.abs(base))), 1e-300),
                  {"max diff": dmax}, key=f"history:{score}")
